@@ -54,7 +54,7 @@ CHECKS.update({
           "tokenize being deterministic and collision-free is assumed (hypotheses tok_inj, tok_len).", "DESIGN.md section 6 C08"),
  "C11": C("Coq proof (partial): output-subset selection of every shuffle implementation (staged_route / simple_route for arbitrary subsets), truthful divisions of partition selections / head / tail; differential: partitions / get_partition / to_delayed / head / tail vs the computed partitions for 12 source kinds x 8 operation chains x 9 index sets; nested heads/tails; T-SRC theorems about the translated Partitions/Head/Tail divisions; regression corpus D42, D43, D72-D74",
           "Every offline source kind (in-memory, array, from_map, delayed, imported graph, legacy, csv, parquet x2, timeseries) x chains with broadcast operands x single/slice/reordered/repeated index sets: the selected partitions equal the corresponding partitions of the computed collection; head(n, npartitions=k) / tail(n) equal the first/last rows; shuffles, hash and broadcast joins with output subsets; sorted heads.",
-          "Known finding D22 (head/tail over a fused multi-file parquet read) is replayed and reported as KNOWN-FINDING.", "DESIGN.md section 6 C11"),
+          "Head/tail over fused multi-file parquet reads (defect D22, repaired) are checked for both readers.", "DESIGN.md section 6 C11"),
  "C15": C("Coq proof: lru_transparent / fail_atomic (any capacity, any history) over the op-for-op model of class LRU, T-GEN obligation state_free_table + exhaustive-in-bound correspondence with the real class; session histories vs fresh-interpreter baselines; presorted column sorted both ways with per-partition observations; regression corpus D81",
           "The LRU model equals the real class on ALL operation sequences up to length 4/5 over 3 keys and capacities 1-3; random session histories (build / optimize / compute / discard+gc / injected failures / cache eviction by 13 extra set_index queries / dataset rewrite) over a pool of 26 queries are compared observation by observation with the same query alone in a fresh interpreter.",
           "GC timing and file-system mtime granularity are runtime behaviour (observed).", "DESIGN.md section 6 C15"),
